@@ -6,6 +6,7 @@ import (
 	"io"
 	"math"
 	"runtime"
+	"strconv"
 	"strings"
 
 	"github.com/amzn/ion-go/ion"
@@ -19,6 +20,7 @@ type srcReader struct {
 	chunk   int
 	ioerr   bool
 	withEOF bool // return the last data together with io.EOF
+	splitAt int  // > 0: deliver data[:splitAt] then the rest (two reads)
 }
 
 var errSrc = errors.New("source failure")
@@ -33,6 +35,9 @@ func (s *srcReader) Read(p []byte) (int, error) {
 	n := len(p)
 	if s.chunk > 0 && n > s.chunk {
 		n = s.chunk
+	}
+	if s.splitAt > 0 && s.pos < s.splitAt && n > s.splitAt-s.pos {
+		n = s.splitAt - s.pos
 	}
 	if n > len(s.data)-s.pos {
 		n = len(s.data) - s.pos
@@ -340,6 +345,14 @@ func init() {
 			return "badinput"
 		}
 		src, _, ok := newSrc(a[2:])
+		if strings.HasPrefix(a[0], "s") {
+			k, err := strconv.Atoi(a[0][1:])
+			if err != nil {
+				return "badinput"
+			}
+			src.splitAt = k
+			a[0] = "0"
+		}
 		cs, ok2 := argU(a, 0)
 		if !ok || !ok2 {
 			return "badinput"
